@@ -29,7 +29,7 @@ INVARIANTS {invariants}
 {props}
 CHECK_DEADLOCK FALSE
 """
-ALL_INVS = "TypeOK SerialEquivalence NoDoubleImage WellFormed RowIdUnique RowIdsNeverReused VersionColumnsCorrect RestoreEqualsOld RewritePreservesContents"
+ALL_INVS = "TypeOK IndexCoverageSound SerialEquivalence NoDoubleImage WellFormed RowIdUnique RowIdsNeverReused VersionColumnsCorrect RestoreEqualsOld RewritePreservesContents"
 ALL_PROPS = "PROPERTIES VersionsImmutable RowIdStable"
 ALL_OPS = ["append", "delete", "update", "upsert", "compact", "overwrite", "restore", "checkout"]
 
@@ -63,7 +63,7 @@ def cfg(ids, vals, maxv, maxops, stable, opkinds, invariants=ALL_INVS, props=ALL
                          invariants=invariants, props=props)
 
 
-def hist_to_scenario(hist, sid, stable, reread=False, tail_steps=None, knobs=None):
+def hist_to_scenario(hist, sid, stable, reread=False, tail_steps=None, knobs=None, index_type="btree"):
     """TLC history (list of step records) -> driver scenario."""
     steps = []
     init = hist[0]
@@ -93,6 +93,8 @@ def hist_to_scenario(hist, sid, stable, reread=False, tail_steps=None, knobs=Non
             steps.append({"op": "compact", "h": h})
         elif op == "restore":
             steps.append({"op": "restore", "h": h, "v": st["v"]})
+        elif op == "index":
+            steps.append({"op": "create_index", "h": h, "col": "val", "type": index_type, "replace": True})
         else:
             raise vlib.ToolError(f"unknown op in history: {op}")
     if reread:
